@@ -495,6 +495,24 @@ func (p *parser) postfix() (SExpr, error) {
 			x = &SSel{x, t.s}
 		case p.isOp("("):
 			p.p++
+			if id, ok := x.(*SIdent); ok && id.Name == "cast" {
+				ty, err := p.stype()
+				if err != nil {
+					return nil, err
+				}
+				if err := p.expect(","); err != nil {
+					return nil, err
+				}
+				arg, err := p.expr()
+				if err != nil {
+					return nil, err
+				}
+				if err := p.expect(")"); err != nil {
+					return nil, err
+				}
+				x = &SCall{x, []SExpr{&SLit{"string", ty.String()}, arg}}
+				continue
+			}
 			if id, ok := x.(*SIdent); ok && id.Name == "typeId" {
 				ty, err := p.stype()
 				if err != nil {
